@@ -148,7 +148,10 @@ class C06(Check):
 
     def _run_node(self, scn: dict, ws: dict, out: Outcome, tag: str) -> None:
         from ..worlds.wire import Node, NodeError
-        import pydsdl
+        from ..worlds.workspace import hosted_library
+        pydsdl = hosted_library(ws)  # the real module; serialize / deserialize run under this run's host process configuration
+        out.stats["host:debug_logging"] += int(pydsdl._env[0])
+        out.stats["host:warnings_as_errors"] += int(pydsdl._env[1])
         try:
             node = Node(ws)
         except NodeError as ex:
@@ -156,6 +159,7 @@ class C06(Check):
             return
         try:
             res = node.uni.res
+            mixed_cache: dict = {}
             for key, si, real, sec in node.sections():
                 feats = type_features(res, sec)
                 if feats & {"subbyte", "nested", "var"}:
@@ -200,6 +204,25 @@ class C06(Check):
                     except Exception as ex:
                         out.fail("C06.roundtrip", "%s: deserialize of own output raised %s: %s" % (where, type(ex).__name__, ex), "deserialize-raised:" + type(ex).__name__)
                         continue
+                    if i % 4 == 1:
+                        # the same type built through the public constructors with its constants placed between its fields: the
+                        # wire format only depends on the fields and their order
+                        try:
+                            if (key, si) not in mixed_cache:
+                                from ..worlds.values import rebuild
+                                mixed_cache[(key, si)] = rebuild(real, "list", interleave=True)[0]
+                            mx = mixed_cache[(key, si)]
+                            mb = pydsdl.serialize(mx, v)
+                            out.stats["interleaved_constructor_types"] += 1
+                            if mb != ref_bytes:
+                                out.fail("C06.bytes", "%s: with the type built through the constructor, constants between the fields: pydsdl %s, reference peer %s" % (where, mb.hex(), ref_bytes.hex()), "ctor-interleaved-bytes")
+                            elif R.norm(pydsdl.deserialize(mx, ref_bytes)) != want:
+                                out.fail("C06.roundtrip", "%s: with the type built through the constructor, constants between the fields: decode differs" % where, "ctor-interleaved-roundtrip")
+                        except Exception as ex:
+                            from .base import raised_inside_sut
+                            if not raised_inside_sut(ex):
+                                raise
+                            out.fail("C06.bytes", "%s: type built through the constructor with constants between the fields: %s: %s" % (where, type(ex).__name__, ex), "ctor-interleaved-raised:" + type(ex).__name__)
                     if R.norm(back) != want:
                         out.fail("C06.roundtrip", "%s: bytes %s decode to %r, expected %r" % (where, real_bytes.hex(), back, want), "roundtrip")
                     elif i % 3 == 0 and real_bytes:
